@@ -23,8 +23,20 @@ const struct bufferevent_ops bufferevent_ops_filter = { "filter-not-linked", 0, 
 
 #define FD 5
 #define B 0
-enum { OP_ENABLE_R, OP_ENABLE_W, OP_DISABLE_R, OP_DISABLE_W, OP_SET_TIMEOUTS, OP_SUSPEND, OP_UNSUSPEND, OP_WRITE,
-       OP_READ_EVENT, OP_WRITE_EVENT, OP_READ_TIMEOUT, OP_WRITE_TIMEOUT, OP_READ_EVENT_AND_TIMEOUT };
+/* (macros, not an enum: they are compared in #if) */
+#define OP_ENABLE_R 0
+#define OP_ENABLE_W 1
+#define OP_DISABLE_R 2
+#define OP_DISABLE_W 3
+#define OP_SET_TIMEOUTS 4
+#define OP_SUSPEND 5
+#define OP_UNSUSPEND 6
+#define OP_WRITE 7
+#define OP_READ_EVENT 8
+#define OP_WRITE_EVENT 9
+#define OP_READ_TIMEOUT 10
+#define OP_WRITE_TIMEOUT 11
+#define OP_READ_EVENT_AND_TIMEOUT 12
 #ifndef C20_OP
 #define C20_OP OP_ENABLE_R
 #endif
